@@ -22,7 +22,7 @@ from vf.engine import loader, paths, proxies
 from vf.engine.paths import cur, explore, Undecided, PathEnd
 from vf.engine.proxies import SymBool, SymInt
 from vf.contracts.replfront import EH, U, conj, same_set, Answer
-from claripy.errors import ClaripyFrontendError
+from claripy.errors import ClaripyFrontendError, ClaripySolverInterruptError
 
 HF_PATH = "claripy/frontend/hybrid_frontend.py"
 
@@ -31,6 +31,7 @@ class FStub:
     """contract of a constrained frontend (exact or approximate): a constraint list; combine / merge / split per C15; queries answer with a
     recorded token; the approximate one may give up with ClaripyFrontendError"""
     n = 0
+    faults = False      # C17: the exact frontend's solver may give up (timeout / resource limit) instead of answering
 
     def __init__(self, role, constraints=(), may_refuse=False):
         FStub.n += 1
@@ -61,6 +62,9 @@ class FStub:
         if self.may_refuse and c.choose([True, True], f"{self.role}-gives-up") == 1:
             self.log.append((name, args, kw, "refused"))
             raise ClaripyFrontendError("approximate frontend cannot answer")
+        if FStub.faults and self.role == "exact" and c.choose([True, True], "exact-solver-gives-up") == 1:
+            self.log.append((name, args, kw, "interrupted"))
+            raise ClaripySolverInterruptError("timeout")
         if name in ("eval", "eval_to_ast", "batch_eval"):
             n = args[1]
             k = c.choose([True] * (n + 1), f"{self.role}-n-results")
@@ -142,13 +146,17 @@ QUERIES = ["eval", "batch_eval", "max", "min", "solution", "is_true", "is_false"
 METHODS = QUERIES + ["eval[approximate_first]", "_add", "combine", "merge", "merge[ancestor]", "split", "branch", "blank_copy", "simplify/downsize/finalize"]
 
 
-def ob_hybrid(method, tier="quick"):
+def ob_hybrid(method, tier="quick", faults=False):
+    """faults=True (C17): the exact frontend may raise ClaripySolverInterruptError instead of answering; the operation must then raise that
+    error - in particular it must not hand out the approximate frontend's answer, which is not an answer to the caller's (exact or default
+    mode) question - and the representation invariant must hold afterwards"""
     HF = load()["HybridFrontend"]
     proxies.set_iw(16)
 
     def body(c):
         EH.n = 0
         FStub.n = 0
+        FStub.faults = faults
         label = f"HybridFrontend.{method}"
         h = mk(HF, "h", c.choose([True] * 3, "n-constraints"), approximate_first=method.endswith("[approximate_first]"))
         ex, ap = h._exact_frontend, h._approximate_frontend
@@ -160,20 +168,27 @@ def ob_hybrid(method, tier="quick"):
                 e, v, x = EH("bv", name="q"), EH("bv", name="val"), (EH("bool", name="x"),)
                 e.variables = frozenset({"v"})
                 n = 3
-                if q in ("eval", "eval_to_ast"):
-                    r = getattr(h, q)(e, n, extra_constraints=x, exact=exact); args = (e, n)
-                elif q == "batch_eval":
-                    r = h.batch_eval([e], n, extra_constraints=x, exact=exact); args = ([e], n)
-                elif q in ("max", "min"):
-                    r = getattr(h, q)(e, extra_constraints=x, signed=True, exact=exact); args = (e,)
-                elif q == "solution":
-                    r = h.solution(e, v, extra_constraints=x, exact=exact); args = (e, v)
-                elif q in ("is_true", "is_false"):
-                    r = getattr(h, q)(e, extra_constraints=x, exact=exact); args = (e,)
-                elif q == "satisfiable":
-                    r = h.satisfiable(extra_constraints=x, exact=exact); args = ()
-                else:
-                    r = h.unsat_core(extra_constraints=x); args = ()
+                try:
+                    if q in ("eval", "eval_to_ast"):
+                        r = getattr(h, q)(e, n, extra_constraints=x, exact=exact); args = (e, n)
+                    elif q == "batch_eval":
+                        r = h.batch_eval([e], n, extra_constraints=x, exact=exact); args = ([e], n)
+                    elif q in ("max", "min"):
+                        r = getattr(h, q)(e, extra_constraints=x, signed=True, exact=exact); args = (e,)
+                    elif q == "solution":
+                        r = h.solution(e, v, extra_constraints=x, exact=exact); args = (e, v)
+                    elif q in ("is_true", "is_false"):
+                        r = getattr(h, q)(e, extra_constraints=x, exact=exact); args = (e,)
+                    elif q == "satisfiable":
+                        r = h.satisfiable(extra_constraints=x, exact=exact); args = ()
+                    else:
+                        r = h.unsat_core(extra_constraints=x); args = ()
+                except ClaripySolverInterruptError:
+                    c.check(label + "/interrupt-only-if-the-solver-gave-up", any(l[3] == "interrupted" for l in ex.log), "ClaripySolverInterruptError although no frontend gave up")
+                    _inv(c, h, label + "[after-interrupt]")
+                    return "interrupted"
+                c.check(label + "/no-answer-after-the-solver-gave-up", not any(l[3] == "interrupted" for l in ex.log),
+                        "the exact frontend's solver gave up during the operation, yet the operation returned an answer (the approximation's) instead of raising")
                 asked_e = [l for l in ex.log]
                 asked_a = [l for l in ap.log]
                 answers = [l[3] for l in asked_e + asked_a if l[3] != "refused"]
